@@ -314,6 +314,10 @@ def verdict(prop, cfg, tier, seed, pr, results, runner, drv, t0, vp):
     # 5a. direct oracle failures: minimise and report
     hanging = any("non-termination" in v for _, v in viols)
     for d, v in viols:
+        if prop == "C15" and "non-termination" in v:
+            # C15 speaks about unchecked accesses only: a walk that never ends on a map the helper API has turned
+            # into a cyclic graph is not undefined behaviour (the history is lost for the comparison, nothing more)
+            continue
         k = vp.match_known(prop, v, known)
         if k:
             known_hits.add(k["what"])
